@@ -15,6 +15,12 @@ def nest(kind, k, unit='  '):
             ls.append(unit * d + head)
         ls.append(unit * k + 'STRING x')
         return None, None, '\n'.join(ls)
+    if kind in ('while0', 'whileplain', 'repeat0', 'iffalse'):
+        # the innermost block never runs its body (or is a counter-less WHILE): it is a level all the same
+        ls = [unit * d + 'IF TRUE' for d in range(k - 1)]
+        head = {'while0': 'WHILE FALSE', 'whileplain': 'WHILE go', 'repeat0': 'REPEAT 0', 'iffalse': 'IF FALSE'}[kind]
+        ls = ['VAR go FALSE'] + ls + [unit * (k - 1) + head, unit * k + 'STRING never', 'STRING x']
+        return None, None, '\n'.join(ls)
     if kind == 'run':
         ls = []
         for d in range(k):
@@ -41,7 +47,7 @@ def generate(g, tier):
     cases = []
     limits = [5, 6, 7, 20, 50, 100, 200, r.randint(5, 200)] if tier == 'quick' else list(range(5, 201))
     for L in limits:
-        for kind in ('if', 'repeat', 'while', 'mix', 'run', 'runmix', 'start'):
+        for kind in ('if', 'repeat', 'while', 'mix', 'run', 'runmix', 'start', 'while0', 'whileplain'):
             for k in (L - 1, L):
                 if kind == 'start' and k > 150: continue      # host recursion: probed separately (known finding)
                 files, entry, text = nest(kind, k)
@@ -95,6 +101,16 @@ def generate(g, tier):
     cases.append(dict(op='compile', src=dict(text='VAR n 2\nREPEAT n\n    VAR n 20000\n    BREAKLOOP\nSTRING after'), meta=dict(family='moving-bound-ok', exp='ok')))
     if tier == 'thorough':
         cases.append(dict(op='compile', timeout=600, src=dict(text='VAR n 1\nREPEAT n\n    VAR n n+1\nSTRING after'), meta=dict(family='growing-bound', exp='error')))
+    # both limits near their maximum together: the deepest call chain the stack limit allows, each level evaluating an expression
+    # nested as deep as the parenthesis limit allows — the limits answer, not the host stack
+    for L in (150, 200):
+        par = '(' * 99 + 'a' + ')' * 99
+        cases.append(dict(op='compile', timeout=120, opts=dict(stack_limit=L), src=dict(text=f'FUNC f a\n    $STRING {par}\n    RUN f a+1\nRUN f 0'),
+                          meta=dict(family='both-limits', L=L, exp='overflow')))
+        cases.append(dict(op='compile', timeout=120, opts=dict(stack_limit=L), src=dict(text=f'FUNC f a\n    IF {par} < {(L - 4) // 2}\n        RUN f a+1\n    ELSE\n        STRING x\nRUN f 0'),
+                          meta=dict(family='both-limits-legal', L=L, exp='ok-tail')))      # 1 + 2 stacks per call: the deepest chain that fits
+        cases.append(dict(op='compile', timeout=120, opts=dict(stack_limit=L), src=dict(text=f'FUNC f a\n    IF {par} < {(L - 4) // 2 + 1}\n        RUN f a+1\n    ELSE\n        STRING x\nRUN f 0'),
+                          meta=dict(family='both-limits-over', L=L, exp='overflow')))
     # parenthesis depth
     for d in (1, 50, 99, 100, 101, 102, 150):
         e = '(' * d + '1' + ')' * d
